@@ -4,13 +4,23 @@ Streams
   adm     : doc bodies (Doc grammar + marker junk) -> AdmonitionPreprocessor.run vs Lean `admRun`
             (exact, error kinds included); `_find_admonitions` spans vs `findAdm`.
   meta    : header/body line lists -> ford.utils.meta_preprocessor vs Lean `metaSplit` (exact).
+  rmeta   : short doc lists around the one-line rule (keys of the EntitySettings table in every spelling, names
+            near the table such as non-field attributes of the class, trailing empty lines)
+            -> the real FortranBase.read_metadata on a bare entity vs Lean `readMetadata` (exact).
   dedent  : textwrap.dedent vs Lean `dedent` (exact).
   program : generated programs (unique tracer words per entity comment x four doc styles x marker
-            characters x inline/own-line x gaps) -> Project -> per entity
+            characters x inline/own-line x gaps; comment bodies incl. one-line `key: value` / `word: text`
+            comments and the Markdown constructs whose definitions are kept on the Markdown instance:
+            footnotes, reference-style links, abbreviations, with labels shared between comments) -> Project -> per entity
             (a) correspondence: (name, metadata, doc_list) == Lean `entDocs (attach (readAll lines))`,
-                and run(dedent(doc_list)) == Lean pipeline, and that is what Markdown was handed;
+                run(dedent(doc_list)) == Lean pipeline, and that is what Markdown was handed;
+                link targets / footnote list / abbreviation titles of every entity's HTML == Lean `markdownAll`
+                (model of the one shared Markdown instance: reset + convert per entity, in conversion order);
             (b) property oracle on the real code: tracer words of BeautifulSoup(entity.doc).get_text()
-                == the entity's own tracer sequence; metadata set, not shown.
+                == the entity's own tracer sequence (footnote texts last); metadata set, not shown; no tracer word
+                of any other comment anywhere in the entity's HTML (attributes included).
+Which of the proposed repairs (fixes/C03-*.diff) the tree under test contains is decided at run time on the
+findings' witnesses (`variants`); the models follow.
 """
 from __future__ import annotations
 
@@ -41,6 +51,21 @@ class Tracer:
         self.eid = eid
         self.k = 0
         self.seq = []
+        self.attrs = []  # words of the comment that are rendered inside attributes only (link targets, abbr titles)
+        self.foot = []   # words of footnote texts
+
+    def a(self):
+        t = f"t{self.eid}q{self.k}"
+        self.k += 1
+        self.attrs.append(t)
+        return t
+
+    def f(self):
+        """a word of a footnote text: shown below everything else of the entity's documentation"""
+        t = f"t{self.eid}q{self.k}"
+        self.k += 1
+        self.foot.append(t)
+        return t
 
     def w(self):
         t = f"t{self.eid}q{self.k}"
@@ -61,6 +86,102 @@ def case_variant(rng, k):
     if r < 0.85:
         return k.upper()
     return "".join(c.upper() if rng.random() < 0.5 else c for c in k)
+
+
+# Markdown constructs whose definitions live in per-document tables of the Markdown instance (footnotes,
+# reference-style links, abbreviations).  Labels come from small shared pools so that different comments of
+# one project use the same labels: a comment may use a label it does not define (rendered literally).
+FOOT_LABELS = ["1", "2", "a"]
+REF_LABELS = ["r1", "r2", "Lnk"]
+ABBR_TOKENS = ["ABX", "QZY", "KLM"]
+
+
+class MdDefs:
+    def __init__(self):
+        self.foot_use, self.foot_def = [], []
+        self.ref_use, self.ref_def = [], []
+        self.abbr_use, self.abbr_def = [], []
+
+    def any_def(self):
+        return bool(self.foot_def or self.ref_def or self.abbr_def)
+
+
+def para_line(rng, tr, pend):
+    """One paragraph line of tracer words; now and then one word carries a footnote reference, is the text of
+    a reference-style link, or an abbreviation token is put between the words."""
+    ws = [tr.w() for _ in range(rng.randint(1, 4))]
+    if pend is None:
+        return " ".join(ws)
+    r = rng.random()
+    i = rng.randrange(len(ws))
+    if r < 0.07:
+        lab = rng.choice(FOOT_LABELS)
+        ws[i] += f"[^{lab}]"
+        pend.foot_use.append(lab)
+        if lab not in pend.foot_def and rng.random() < 0.75:
+            pend.foot_def.append(lab)
+    elif r < 0.14:
+        lab = rng.choice(REF_LABELS)
+        ws[i] = f"[{ws[i]}][{lab if rng.random() < 0.8 else lab.upper()}]"
+        pend.ref_use.append(lab)
+        if lab not in pend.ref_def and rng.random() < 0.7:
+            pend.ref_def.append(lab)
+    elif r < 0.20:
+        tok = rng.choice(ABBR_TOKENS)
+        ws.insert(i, tok)
+        pend.abbr_use.append(tok)
+        if tok not in pend.abbr_def and rng.random() < 0.5:
+            pend.abbr_def.append(tok)
+    return " ".join(ws)
+
+
+def def_lines(rng, tr, feat, pend):
+    """Definition blocks for the end of a comment (footnote texts are shown, in definition order, below the
+    body; link targets and abbreviation titles only appear in attributes)."""
+    if rng.random() < 0.04:
+        lab = rng.choice(FOOT_LABELS)
+        if lab not in pend.foot_def:
+            pend.foot_def.append(lab)
+    if rng.random() < 0.04:
+        lab = rng.choice(REF_LABELS)
+        if lab not in pend.ref_def:
+            pend.ref_def.append(lab)
+    if rng.random() < 0.04:
+        tok = rng.choice(ABBR_TOKENS)
+        if tok not in pend.abbr_def:
+            pend.abbr_def.append(tok)
+    groups = []
+    if pend.foot_def:
+        groups.append([f"[^{lab}]:" + rng.choice([" ", "  "]) + " ".join(tr.f() for _ in range(rng.randint(1, 3)))
+                       for lab in pend.foot_def])
+    rest = []
+    if pend.ref_def:
+        rest.append([f"[{lab}]: http://example.com/{tr.a()}" for lab in pend.ref_def])
+    if pend.abbr_def:
+        rest.append([f"*[{tok}]: " + " ".join(tr.a() for _ in range(rng.randint(1, 2))) for tok in pend.abbr_def])
+    rng.shuffle(rest)
+    groups += rest
+    out = []
+    for g in groups:
+        for k, l in enumerate(g):
+            if k == 0 or rng.random() < 0.5:
+                out.append("")
+            out.append(l)
+    for lab in pend.foot_def:
+        feat.add("footnote-def")
+    for lab in pend.ref_def:
+        feat.add("ref-def:" + lab.lower())
+    for tok in pend.abbr_def:
+        feat.add("abbr-def:" + tok)
+    for lab in pend.foot_use:
+        feat.add("footnote-ref" if lab in pend.foot_def else "footnote-dangling-ref")
+    for lab in pend.ref_use:
+        feat.add("ref-link" if lab in pend.ref_def else "ref-dangling-use")
+        feat.add("ref-use:" + lab.lower())
+    for tok in pend.abbr_use:
+        feat.add("abbr-use:" + tok)
+        feat.add("abbr-own-def" if tok in pend.abbr_def else "abbr-dangling-use")
+    return out
 
 
 def gen_note(rng, tr, feat, last_block):
@@ -114,10 +235,11 @@ def gen_note(rng, tr, feat, last_block):
     return lines, True
 
 
-def gen_body(rng, tr, feat, max_blocks=4, notes=True):
+def gen_body(rng, tr, feat, max_blocks=4, notes=True, mdstate=True):
     """Doc comment body (list of lines, no leading blank)."""
     nb = rng.randint(1, max_blocks)
     lines = []
+    pend = MdDefs() if mdstate else None
     pending_unterminated = False
     for b in range(nb):
         last = b == nb - 1
@@ -141,7 +263,7 @@ def gen_body(rng, tr, feat, max_blocks=4, notes=True):
         pending_unterminated = False
         if r < 0.62:
             for _ in range(rng.randint(1, 3)):
-                lines.append(tr.words(rng))
+                lines.append(para_line(rng, tr, pend))
             feat.add("paragraph")
         elif r < 0.74:
             m = rng.choice(["-", "*", "+"])
@@ -166,6 +288,12 @@ def gen_body(rng, tr, feat, max_blocks=4, notes=True):
             for _ in range(rng.randint(1, 2)):
                 lines.append("    " + tr.words(rng))
             feat.add("indented-code")
+    if pend is not None:
+        dl = def_lines(rng, tr, feat, pend)
+        if dl and pending_unterminated:
+            feat.discard("note-ended-by-eof")
+            feat.add("note-ended-by-blank")
+        lines += dl
     return lines
 
 
@@ -195,8 +323,33 @@ class Comment:
         self.feat = set()
 
 
+ONELINE_TEXT_KEYS = ["Note", "Todo", "Remark", "Example", "see also", "authors", "xauthor", "Author s", "auth"]
+NONFIELD_ATTRS: list = []  # public attributes of EntitySettings that are not dataclass fields (filled in run())
+
+
+def gen_oneline(rng, c):
+    """A doc comment of exactly one line that contains a colon: `read_metadata`'s one-line rule decides
+    between metadata (`<known key, any case>: value`, not shown) and text (anything else, shown)."""
+    if rng.random() < 0.5:
+        k = rng.choice(STR_META)
+        v = f"m{c.tr.eid}{k}{rng.randint(0, 99)}"
+        kk = case_variant(rng, k)
+        c.lines = [f"{kk}:" + rng.choice([" ", "  ", ""]) + v]
+        c.meta = {k: [v]}
+        c.feat.update({"oneline-meta", "oneline-meta-key:" + ("lower" if kk == k else "not-lower")})
+    else:
+        w = rng.choice(ONELINE_TEXT_KEYS + NONFIELD_ATTRS)
+        if rng.random() < 0.3:
+            w = case_variant(rng, w)
+        c.lines = [f"{w}:" + rng.choice([" ", "  "]) + c.tr.words(rng, 1, 3)]
+        c.feat.update({"oneline-colon-text", "oneline-text-key:" + ("attribute" if w.lower() in NONFIELD_ATTRS else "word")})
+    return c
+
+
 def gen_comment(rng, eid, rich=True, meta_ok=True):
     c = Comment(eid)
+    if rich and meta_ok and rng.random() < 0.1:
+        return gen_oneline(rng, c)
     has_meta = meta_ok and rng.random() < 0.2
     if has_meta:
         hl, c.meta = gen_header(rng, c.tr, c.feat)
@@ -438,6 +591,8 @@ def render(rng, nodes, marks, layout):
     lines = []
     expected = {}
     state = {"no_plain_comment_next": False}
+    foot_words: dict = {}
+    last_line: dict = {}
 
     def put(line):
         lines.append(line)
@@ -466,11 +621,19 @@ def render(rng, nodes, marks, layout):
             elif n.kind == "stray":
                 c = n.comment
                 sp = " "
+                if last_line.get(container, "").lstrip().startswith("[^"):
+                    # directly after a footnote definition the stray lines would (Markdown's lazy continuation)
+                    # be part of the footnote text; an empty doc line keeps them a paragraph of their own
+                    put(docline(ind, doc, "", sp))
+                    layout.add("blank-doc-line-before-stray-after-footnote")
                 for t in c.lines:
                     put(docline(ind, doc, t, sp))
+                last_line[container] = c.lines[-1]
                 state["no_plain_comment_next"] = False
-                w, m, f = expected.setdefault(container, ([], {}, set()))
+                w, m, f, a = expected.setdefault(container, ([], {}, set(), []))
                 w.extend(c.tr.seq)
+                foot_words.setdefault(container, []).extend(c.tr.foot)
+                a.extend(c.tr.attrs)
                 f.update(c.feat)
                 f.add("stray-container-doc")
                 if container == "<file>":
@@ -521,22 +684,27 @@ def render(rng, nodes, marks, layout):
                     state["no_plain_comment_next"] = True
                 for nm in n.names:
                     if c is not None:
-                        w, m, f = expected.setdefault(nm, ([], {}, set()))
+                        w, m, f, a = expected.setdefault(nm, ([], {}, set(), []))
                         if w:  # container docstring comes before stray lines
                             raise AssertionError("entity expected twice")
                         w.extend(c.tr.seq)
+                        foot_words.setdefault(nm, []).extend(c.tr.foot)
+                        last_line[nm] = c.lines[-1]
+                        a.extend(c.tr.attrs)
                         m.update(c.meta)
                         f.update(c.feat)
                         f.add("style:" + st)
                     else:
-                        expected.setdefault(nm, ([], {}, set()))
+                        expected.setdefault(nm, ([], {}, set(), []))
                 if n.body is not None:
                     walk(n.body, depth + 1, n.names[0])
                     put(ind + n.end)
                     state["no_plain_comment_next"] = False
 
     walk(nodes, 0, "<file>")
-    expected.setdefault("<file>", ([], {}, set()))
+    expected.setdefault("<file>", ([], {}, set(), []))
+    for nm, fw in foot_words.items():
+        expected[nm][0].extend(fw)  # footnote texts are rendered after everything else, in definition order
     return lines, expected
 
 
@@ -629,7 +797,8 @@ def run_ford(ford, path: Path, marks):
     sf.namelist = sf.NameSelector()
     p = ford.fortran_project.Project(s)
     p.correlate()
-    md = MetaMarkdown(s.md_base_dir, base_url=s.project_url, extensions=s.md_extensions, aliases={}, project=p)
+    # as the command line does after ProjectSettings.normalise_paths: project_url = the (absolute) output directory
+    md = MetaMarkdown(s.md_base_dir, base_url=str(path.parent / "doc"), extensions=s.md_extensions, aliases={}, project=p)
     return p, md
 
 
@@ -641,6 +810,16 @@ def observe(ford, d: Path, lines, marks, A, captured):
         old.unlink()
     f = d / "c.f90"
     f.write_text("".join(l + "\n" for l in lines))
+    import ford.sourceform as sf
+
+    handed_meta = {}  # id(entity) -> the docstring as it was handed to read_metadata (last call)
+    orig_rm = sf.FortranBase.read_metadata
+
+    def rm_spy(self):
+        handed_meta[id(self)] = list(self.doc_list)
+        return orig_rm(self)
+
+    sf.FortranBase.read_metadata = rm_spy
     try:
         with common.quiet():
             p, md = run_ford(ford, f, marks)
@@ -653,12 +832,29 @@ def observe(ford, d: Path, lines, marks, A, captured):
             p.markdown(md)
     except Exception as e:  # noqa
         return {"error": f"{type(e).__name__}: {str(e)[:300]}"}
+    finally:
+        sf.FortranBase.read_metadata = orig_rm
     ents = []
     for it, (k, dl) in zip(items, pre_md):
         meta = {key: getattr(it.meta, key) for key in STR_META if getattr(it.meta, key) is not None}
-        text = BeautifulSoup(it.doc or "", "html.parser").get_text()
-        ents.append({"key": k, "doc_list": dl, "meta": meta, "words": TRACER.findall(text),
-                     "metawords": re.findall(r"m\d+[a-z]+\d+", text)})
+        soup = BeautifulSoup(it.doc or "", "html.parser")
+        for sup in soup.find_all("sup"):
+            # the number of a footnote reference is not a word of the comment (and would glue to the word before)
+            if sup.find("a", class_="footnote-ref"):
+                sup.replace_with(" ")
+        text = soup.get_text()
+        links = [a.get("href", "") for a in soup.find_all("a")
+                 if not ({"footnote-ref", "footnote-backref"} & set(a.get("class") or []))]
+        foots = []
+        for div in soup.find_all("div", class_="footnote"):
+            for li in div.find_all("li"):
+                foots.append(" ".join(li.get_text().replace("\u21a9", " ").split()))
+        titles = [x.get("title", "") for x in soup.find_all("abbr")]
+        raw = it.doc or ""
+        ents.append({"key": k, "doc_list": dl, "raw_doc_list": handed_meta.get(id(it), []), "meta": meta,
+                     "words": TRACER.findall(text), "metawords": re.findall(r"m\d+[a-z]+\d+", raw),
+                     "raw_words": TRACER.findall(raw), "links": links, "foots": foots, "abbr_titles": titles,
+                     "abbr_title_words": TRACER.findall(" ".join(titles))})
     return {"ents": ents, "handed": {tuple(c) for c in captured}}
 
 
@@ -667,8 +863,20 @@ def observe(ford, d: Path, lines, marks, A, captured):
 # --------------------------------------------------------------------------
 
 
-def classify(feat, key=""):
-    """Known defect classes (known_findings/C03.json); None = not a known class."""
+def classify(feat, key="", kind=None, abbr_before=(), raw_doc_list=()):
+    """Known defect classes (known_findings/C03.json); None = not a known class.
+    `kind` is the kind of oracle failure, `abbr_before` the abbreviation tokens defined by comments that were
+    converted before this entity's."""
+    if kind == "foreign-abbr-title":
+        # only excused when the comment uses, without defining it, an abbreviation token that an earlier
+        # comment defined, and the foreign words sit in <abbr title> attributes and nowhere else
+        leaked = {t for t in abbr_before if "abbr-use:" + t in feat and "abbr-def:" + t not in feat}
+        return "C03-abbreviation-leaks-to-later-entities" if leaked else None
+    if kind in ("foreign-attr", "attr-word-shown"):
+        return None
+    if kind == "words-or-meta" and "oneline-colon-text" in feat and len(raw_doc_list) > 1 and \
+            ":" in raw_doc_list[0] and not any(l.strip() for l in raw_doc_list[1:]):
+        return "C03-oneline-text-with-colon-lost-before-blank-line"
     if "text-before-note" in feat:
         return "C03-text-before-note-dropped"
     if "@" in key and "@final:" not in key and "meta-header" in feat:
@@ -763,9 +971,132 @@ def modproc_variant(ford):
     return "asis"
 
 
+def impl_rmeta(ford, doc_list):
+    """The real `FortranBase.read_metadata` on a bare entity: (string metadata it set, remaining doc_list)."""
+    import ford.sourceform as sf
+    from ford.settings import ProjectSettings
+
+    class _Bare(sf.FortranBase):
+        filename = "bare.f90"
+
+        def __init__(self):
+            pass
+
+        def _set_display(self):
+            pass
+
+    e = _Bare()
+    e.settings = ProjectSettings(warn=False, quiet=True)
+    e.doc_list = list(doc_list)
+    e.name = "bare"
+    e.obj = "variable"
+    try:
+        with common.quiet():
+            e.read_metadata()
+    except Exception as x:  # noqa
+        return ["err", type(x).__name__]
+    out = ["ok"]
+    for k in STR_META:
+        v = getattr(e.meta, k)
+        if v is not None:
+            out += ["K:" + k, *["V:" + x for x in str(v).split("\n")]]
+    return out + ["L:" + l for l in e.doc_list]
+
+
+def variants(ford):
+    """Which of the repairs proposed in fixes/C03-*.diff the working tree has, decided on the findings'
+    witnesses: flags 'm' (modproc metadata), 'o' (one-line rule ignores trailing empty lines),
+    'a' (MetaMarkdown.reset removes abbreviation patterns)."""
+    from ford._markdown import MetaMarkdown
+
+    flags = ""
+    if modproc_variant(ford) == "repaired":
+        flags += "m"
+    if impl_rmeta(ford, ["Note: must be positive", ""])[-2:] == ["L:Note: must be positive", "L:"]:
+        flags += "o"
+    try:
+        md = MetaMarkdown()
+        md.reset().convert("ABX one\n\n*[ABX]: words of a")
+        if "<abbr" not in md.reset().convert("ABX two"):
+            flags += "a"
+    except Exception:
+        pass
+    return flags or "-"
+
+
+def rmeta_model_fields(g):
+    """keep only what impl_rmeta reports: string metadata keys and the doc lines"""
+    if g[0] != "ok":
+        return g
+    out, keep = ["ok"], False
+    for f in g[1:]:
+        if f.startswith("K:"):
+            keep = f[2:] in STR_META
+        if f.startswith("L:") or keep:
+            out.append(f)
+    return out
+
+
+def rmeta_stream(ford, drv, rng, n, rep, hist, flags):
+    """`FortranBase.read_metadata` (one-line rule + meta_preprocessor) vs Lean `readMetadata`, on short doc lists
+    around the one-line rule: keys from the EntitySettings table in every spelling, names near the table."""
+    reqs, exp = [], []
+    near = ONELINE_TEXT_KEYS + NONFIELD_ATTRS + [k + "s" for k in STR_META] + ["x" + k for k in STR_META]
+    for i in range(n):
+        r = rng.random()
+        if r < 0.45:
+            key = case_variant(rng, rng.choice(STR_META))
+            cls = "known-key"
+        elif r < 0.9:
+            key = rng.choice(near)
+            if rng.random() < 0.3:
+                key = case_variant(rng, key)
+            cls = "near-key"
+        else:
+            key = rng.choice(["", "a b", "Key-1", "[^1]", "http"])
+            cls = "odd-key"
+        line = rng.choice(["", "", "", " ", "   ", "    "]) + key + rng.choice(["", "", " "]) + ":" + \
+            rng.choice([" ", "", "  "]) + rng.choice(["v1", "two words", "", "a: b", "//x.y/z"])
+        doc = [line]
+        r = rng.random()
+        if r < 0.3:
+            doc += [rng.choice(["", " ", "  "]) for _ in range(rng.randint(1, 2))]
+            cls += "+trailing-blank"
+        elif r < 0.45:
+            doc += [rng.choice(["text", "    more", "other: w", ""]), rng.choice(["tail", ""])]
+            cls += "+more-lines"
+        hist["rmeta:" + cls] = hist.get("rmeta:" + cls, 0) + 1
+        reqs.append(["c03.rmeta", flags, *doc])
+        exp.append(impl_rmeta(ford, doc))
+    got = drv.batch(reqs)
+    bad = 0
+    for r, e, g in zip(reqs, exp, got):
+        g = rmeta_model_fields(g)
+        if e != g:
+            bad += 1
+            rep.tie_broken(f"correspondence micro/rmeta: model {g[:6]} vs implementation {e[:6]} on {r[2:]!r}",
+                           {"stream": "micro/rmeta", "request": r, "impl": e, "model": g})
+    return len(reqs), bad
+
+
 def oracle_entity(name, exp, obs):
-    """Property oracle for one entity: None or a description of the failure."""
-    words, meta, _ = exp
+    """Property oracle for one entity: (None, None) or (description of the failure, kind)."""
+    why = _oracle_words_meta(name, exp, obs)
+    if why:
+        return why, "words-or-meta"
+    words, attrs = exp[0], exp[3]
+    own = set(words) | set(attrs)
+    foreign = [w for w in obs["raw_words"] if w not in own]
+    if foreign:
+        # every foreign occurrence in the HTML is an occurrence inside an <abbr title="...">
+        only_abbr = sorted(foreign) == sorted(w for w in obs["abbr_title_words"] if w not in own)
+        return (f"entity {name!r}: its rendered HTML carries words of other comments outside the visible text "
+                f"(link targets, titles, ids): {foreign[:6]}"), ("foreign-abbr-title" if only_abbr else "foreign-attr")
+    return None, None
+
+
+def _oracle_words_meta(name, exp, obs):
+    words, meta = exp[0], exp[1]
     if obs["words"] != words:
         missing = [w for w in words if w not in obs["words"]]
         foreign = [w for w in obs["words"] if w not in words]
@@ -785,7 +1116,7 @@ def run_case(ford, drv_reqs, d, lines, marks, A, captured):
     return observe(ford, d, lines, marks, A, captured)
 
 
-def program_stream(ford, drv, rng, n, rep, hist, samples, distinct, replay_case=None):
+def program_stream(ford, drv, rng, n, rep, hist, samples, distinct, replay_case=None, flags="-"):
     import ford.md_admonition as A
 
     captured = []
@@ -800,7 +1131,9 @@ def program_stream(ford, drv, rng, n, rep, hist, samples, distinct, replay_case=
     cases = []
     try:
         if replay_case is not None:
-            cases.append((replay_case["lines"], {k: (v[0], v[1], set(v[2])) for k, v in replay_case["expected"].items()},
+            cases.append((replay_case["lines"],
+                          {k: (v[0], v[1], set(v[2]), list(v[3]) if len(v) > 3 else [])
+                           for k, v in replay_case["expected"].items()},
                           tuple(replay_case["marks"]), set(replay_case.get("layout", []))))
         else:
             for k in range(n):
@@ -815,17 +1148,16 @@ def program_stream(ford, drv, rng, n, rep, hist, samples, distinct, replay_case=
                     if marks != DEFAULT_MARKS:
                         layout.add("alternative-marker-characters")
                     cases.append((lines, expected, marks, layout))
-        variant = modproc_variant(ford)
-        hist["variant:modproc-metadata:" + variant] = 1
-        model = drv.batch([["c03.attach", variant, *marks, *lines] for lines, _, marks, _ in cases])
+        model = drv.batch([["c03.attach", flags, *marks, *lines] for lines, _, marks, _ in cases])
         pipe_reqs, pipe_ctx = [], []
+        md_reqs, md_ctx = [], []
         with common.scratch_dir() as d:
             for ci, ((lines, expected, marks, layout), mo) in enumerate(zip(cases, model)):
                 obs = observe(ford, d, lines, marks, A, captured)
                 for f in layout:
                     hist["layout:" + f] = hist.get("layout:" + f, 0) + 1
                 case = {"stream": "program", "lines": lines, "marks": list(marks), "layout": sorted(layout),
-                        "expected": {k: [v[0], v[1], sorted(v[2])] for k, v in expected.items()}}
+                        "expected": {k: [v[0], v[1], sorted(v[2]), v[3]] for k, v in expected.items()}}
                 allfeat = set().union(*[v[2] for v in expected.values()]) if expected else set()
                 if "error" in obs:
                     n_orc += 1
@@ -866,25 +1198,40 @@ def program_stream(ford, drv, rng, n, rep, hist, samples, distinct, replay_case=
                         rep.tie_broken(f"correspondence program/handed: Markdown was not handed dedent(doc_list) for {e['key']!r}", case)
                     pipe_reqs.append(["c03.pipeline", *dl])
                     pipe_ctx.append((impl_adm(A, src), case, e["key"]))
+                # ---- request for the model of the shared Markdown instance: all comments in conversion order
+                req = ["c03.mdstate", flags]
+                for e in obs["ents"]:
+                    req.append("E")
+                    req += ["L" + l for l in textwrap.dedent("\n".join(e["doc_list"])).split("\n")]
+                md_reqs.append(req)
+                md_ctx.append((case, [(e["key"], e["links"], [" ".join(x.split()) for x in e["foots"]],
+                                       [" ".join(x.split()) for x in e["abbr_titles"]]) for e in obs["ents"]]))
                 # ---- property oracle
                 seen = set()
                 failed = False
+                abbr_before: set = set()  # abbreviation tokens defined by comments converted so far
+                reported: set = set()
                 for e in obs["ents"]:
                     n_ent += 1
                     exp = expected.get(e["key"])
                     if exp is None:
-                        exp = ([], {}, set())
+                        exp = ([], {}, set(), [])
                     seen.add(e["key"])
-                    why = oracle_entity(e["key"], exp, e)
+                    why, kind = oracle_entity(e["key"], exp, e)
                     for f in exp[2]:
                         hist["doc:" + f] = hist.get("doc:" + f, 0) + 1
                     if exp[0]:
                         distinct.add(common.digest([e["key"], exp[0], sorted(exp[2]), lines]))
-                    if why and not failed:
-                        failed = True
-                        n_orc += 1
-                        rep.failing_input(dict(case, why=why, entity=e["key"], observed_words=e["words"],
-                                               observed_doc_list=e["doc_list"]), classify(exp[2], e["key"]))
+                    if why:
+                        # one report per class and case: a listed class must not hide an unlisted failure
+                        cls = classify(exp[2], e["key"], kind, sorted(abbr_before), e["raw_doc_list"])
+                        if cls not in reported:
+                            reported.add(cls)
+                            failed = True
+                            n_orc += 1
+                            rep.failing_input(dict(case, why=why, entity=e["key"], observed_words=e["words"],
+                                                   observed_doc_list=e["doc_list"]), cls)
+                    abbr_before |= {f.split(":", 1)[1] for f in exp[2] if f.startswith("abbr-def:")}
                 lost = [k for k, v in expected.items() if k not in seen and v[0]]
                 if lost and not failed:
                     n_orc += 1
@@ -892,6 +1239,26 @@ def program_stream(ford, drv, rng, n, rep, hist, samples, distinct, replay_case=
                 if len(samples) < 2 and len(lines) < 40 and any("note" in f for f in allfeat):
                     samples.append({"marks": list(marks), "lines": lines,
                                     "observed": [(e["key"], e["words"]) for e in obs["ents"] if e["words"]]})
+        for g, (case, im) in zip(drv.batch(md_reqs), md_ctx):
+            mo_ents = []
+            for f in g[1:]:
+                if f == "E":
+                    mo_ents.append(([], [], []))
+                elif f[:2] in ("H:", "F:", "A:") and mo_ents:
+                    mo_ents[-1]["HFA".index(f[0])].append(f[2:] if f[0] == "H" else " ".join(f[2:].split()))
+            bad = g[0] != "ok" or len(mo_ents) != len(im)
+            if not bad:
+                for (key, links, foots, titles), (ml, mf, ma) in zip(im, mo_ents):
+                    if (links, foots, titles) != (ml, mf, ma):
+                        bad = True
+                        n_corr += 1
+                        rep.tie_broken(f"correspondence program/mdstate: entity {key!r}: model of the shared Markdown "
+                                       f"instance gives links/footnotes/abbr-titles {(ml, mf, ma)} vs implementation "
+                                       f"{(links, foots, titles)}"[:400], case)
+                        break
+            elif bad:
+                n_corr += 1
+                rep.tie_broken(f"correspondence program/mdstate: model answered {g[:3]} for {len(im)} entities", case)
         got = drv.batch(pipe_reqs)
         for g, (im, case, key) in zip(got, pipe_ctx):
             g = g[:2] if g[0] == "err" else g
@@ -900,7 +1267,7 @@ def program_stream(ford, drv, rng, n, rep, hist, samples, distinct, replay_case=
                 rep.tie_broken(f"correspondence program/pipeline: entity {key!r} model {g[:5]} vs implementation {im[:5]}", case)
     finally:
         A.AdmonitionPreprocessor.run = orig_run
-    return len(cases), n_ent, len(pipe_reqs), n_corr, n_orc
+    return len(cases), n_ent, len(pipe_reqs) + len(md_reqs), n_corr, n_orc
 
 
 def run(tier: str, seed: int, replay: str | None = None) -> int:
@@ -923,6 +1290,10 @@ def run(tier: str, seed: int, replay: str | None = None) -> int:
         except Exception:
             table.update({"types": [("note", "info")]})
     NOTE_KINDS = [k for k, _ in table["types"]]
+    import dataclasses
+    import ford.settings as S
+    fl = {f.name for f in dataclasses.fields(S.EntitySettings)}
+    NONFIELD_ATTRS[:] = sorted(a for a in dir(S.EntitySettings) if not a.startswith("_") and a.lower() not in fl)
     rng = random.Random(seed * 7919 + 3)
     drv = Driver()
     n_micro = 1500 if tier == "quick" else 20000
@@ -937,13 +1308,22 @@ def run(tier: str, seed: int, replay: str | None = None) -> int:
             if c.get("stream") == "program":
                 replay_case = c
                 break
+    flags = variants(ford)
+    hist["variant:repairs-present:" + flags] = 1
     ev_micro, bad_micro = (0, 0) if replay_case else micro_streams(ford, drv, rng, n_micro, rep, hist)
-    n_cases, n_ent, n_pipe, n_corr, n_orc = program_stream(ford, drv, rng, n_prog, rep, hist, samples, distinct, replay_case)
+    if not replay_case:
+        ev_r, bad_r = rmeta_stream(ford, drv, rng, n_micro, rep, hist, flags)
+        ev_micro += ev_r
+        bad_micro += bad_r
+    n_cases, n_ent, n_pipe, n_corr, n_orc = program_stream(ford, drv, rng, n_prog, rep, hist, samples, distinct,
+                                                           replay_case, flags)
     rep.coverage.update(
         evaluations=ev_micro + n_cases + n_pipe,
         distinct_nontrivial=len(distinct),
         rule="program cases = generated Fortran files (modules, programs, procedures, types, components, bound/final "
-             "procedures, generic interfaces, enums, variables) x per-entity doc style x marker characters x layout gaps; "
+             "procedures, generic interfaces, enums, variables) x per-entity doc style x marker characters x layout gaps "
+             "x comment shape (rich body / one-line key: value / one-line word: text / footnotes, reference links, "
+             "abbreviations with labels shared between comments); "
              "counted: distinct (entity, tracer sequence, doc features, file) tuples whose entity has a non-empty doc comment",
         samples=samples,
         traces_validated_against_impl=ev_micro + n_cases + n_pipe,
@@ -959,5 +1339,9 @@ def run(tier: str, seed: int, replay: str | None = None) -> int:
         "statement classification in the Attach model is a keyword reading of the parser cascade restricted to the "
         "statement forms of the generator (the cascade itself is C01's subject)",
         "ASCII input; tracer words are alphanumeric",
+        "the model of the shared Markdown instance (MdState) covers only what refers to its per-document tables "
+        "(reference links, footnotes, abbreviations) in the forms the generator emits: definitions on their own lines "
+        "at the end of a comment, uses as whole blank-separated words of paragraph lines",
+        "the MetaMarkdown instance is built with an absolute base_url (the output directory), as ford's command line does",
     ]
     return rep.finish(lean)
